@@ -753,6 +753,12 @@ class Session:
         # C08 (i): NoChange leaves carry the previous value
         self.check_nochange(rep, i, src, rec, rd)
         dlp = rec.lp - src.lp
+        wok = bool(np.isfinite(rec.lp) and np.isfinite(src.lp))
+        if not wok:
+            # an old choice fell outside the support its new parameters define
+            # (density 0): weight identities are not meaningful (inf - inf); the
+            # value checks below still apply
+            self.probe("edit:nonfinite-score")
         nonempty = bool(st.get("constraint")) or op in ("regenerate", "static_edit", "index_edit")
         ex = self.exempt(src.args, rec.args, "tag:unknown" in perts, nonempty)
         if ex & new_vis:
@@ -769,7 +775,7 @@ class Session:
             fresh = new_vis - old_vis - set(cons)
             if not fresh:
                 self.probe("update:no-fresh")
-                if not obs.close(w, dlp):
+                if (wok and not obs.close(w, dlp)):
                     self.viol("C05.weight", {"C05"} | self.pp | ({"C14"} if "C14" in self.pp else set()), i, rep, "update weight %s vs new score - old score = %.6f (argchange %s, visited set %s)" % (w, dlp, changed, "same" if old_vis == new_vis else "changed"))
             else:
                 self.probe("update:fresh-choices")
@@ -789,7 +795,7 @@ class Session:
             for a in sorted(old_vis & new_vis, key=str):
                 if not sel_member(sel, static_part(a)) and not same_bits(rec.x[a], src.x[a]):
                     self.viol("C07.unselected-changed", {"C07"} | self.pp, i, rep, "unselected %s changed %r -> %r (sel %s)" % (a, src.x[a], rec.x[a], sel))
-            if not obs.close(w, dlp):
+            if (wok and not obs.close(w, dlp)):
                 self.viol("C07.weight", {"C07"} | self.pp, i, rep, "regenerate weight %s vs new - old score %.6f" % (w, dlp))
             # selected choices are redrawn: a continuous selected choice that keeps
             # its exact bit pattern was not resampled (fresh key material per step)
@@ -815,9 +821,9 @@ class Session:
             shared = old_vis & new_vis
             if any(not same_bits(rec.x[a], src.x[a]) for a in shared):
                 self.viol("C38.empty-changed", {"C38"}, i, rep, "EmptyRequest changed choices")
-            if (new_vis - old_vis) and not obs.close(w, dlp):
+            if (new_vis - old_vis) and (wok and not obs.close(w, dlp)):
                 pass
-            if not (new_vis - old_vis) and not obs.close(w, dlp):
+            if not (new_vis - old_vis) and (wok and not obs.close(w, dlp)):
                 self.viol("C38.empty-weight-delta", {"C38"}, i, rep, "EmptyRequest weight %s vs score change %.6f" % (w, dlp))
         elif op == "index_edit":
             idx = st["idx"]
@@ -834,10 +840,10 @@ class Session:
                     if a in new_vis and not same_value(rec.x.get(a), v):
                         self.viol("C12.index-constraint", {"C12", "C11"}, i, rep, "index edit constrained %s=%r, trace holds %r" % (a, v, rec.x.get(a)))
                 fresh = new_vis - old_vis - set(cons)
-                if not fresh and not obs.close(w, dlp):
+                if not fresh and (wok and not obs.close(w, dlp)):
                     self.viol("C12.index-weight", {"C12", "C11", "C05"}, i, rep, "index edit weight %s vs score change %.6f" % (w, dlp))
             else:
-                if not obs.close(w, dlp):
+                if (wok and not obs.close(w, dlp)):
                     self.viol("C12.index-weight", {"C12", "C11", "C07"}, i, rep, "index regenerate weight %s vs score change %.6f" % (w, dlp))
             n = core.get("n", 1)
             self.probe("index:first" if idx == 0 else ("index:last" if idx == n - 1 else "index:middle"))
@@ -862,7 +868,7 @@ class Session:
                     if not sel_member(hit[1]["sel"], rel) and not same_bits(rec.x[a], src.x[a]):
                         self.viol("C38.static-regen-leak", {"C38", "C07"}, i, rep, "StaticRequest Regenerate changed unselected %s" % (a,))
             fresh = new_vis - old_vis
-            if not fresh and not obs.close(w, dlp):
+            if not fresh and (wok and not obs.close(w, dlp)):
                 self.viol("C38.static-weight", {"C38"}, i, rep, "StaticRequest weight %s vs score change %.6f" % (w, dlp))
 
     def check_nochange(self, rep, i, src, rec, rd):
@@ -927,7 +933,7 @@ class Session:
         d = cmp_retvals(rec.tr.get_retval(), src.tr.get_retval())
         if d:
             self.viol("C06.undo-retval", {"C06"} | self.pp, i, rep, "undo of %s retval differs: %s" % (e["op"], d[:2]))
-        if not obs.close(w, -e["w"]):
+        if np.isfinite(np.asarray(w)) and np.isfinite(e["w"]) and not obs.close(w, -e["w"]):
             self.viol("C06.undo-weight", {"C06"} | self.pp, i, rep, "undo weight %s vs -forward weight %s (op %s)" % (np.asarray(w), -e["w"], e["op"]))
         rec.edit = {"src": tgt, "bwd": bwd2, "w": np.asarray(w), "old_args": tgt.args, "changed": changed, "op": "undo"}
         rep.slots[st["out"]] = rec
